@@ -1,0 +1,9 @@
+//go:build !verif
+// +build !verif
+
+// Package verifhook is a test-only observation point; without the `verif`
+// build tag it does nothing.
+package verifhook
+
+// Emit does nothing unless built with the `verif` tag.
+func Emit(point string, args ...interface{}) {}
